@@ -202,6 +202,7 @@ type rewriter struct {
 	name    string
 	skip    map[ast.Node]bool
 	recv2   map[ast.Node]*ast.UnaryExpr
+	multiSel map[*ast.SelectStmt]bool
 	useSim  bool
 	useOS   bool
 	tmp     int
@@ -326,6 +327,7 @@ func (r *rewriter) isChan(e ast.Expr) bool {
 func (r *rewriter) run() []byte {
 	r.skip = map[ast.Node]bool{}
 	r.recv2 = map[ast.Node]*ast.UnaryExpr{}
+	r.multiSel = map[*ast.SelectStmt]bool{}
 	astutil.Apply(r.file, r.pre, r.post)
 	r.fixImports()
 	r.stripComments()
@@ -390,6 +392,17 @@ func (r *rewriter) reinitBody() string {
 				if u, ok := v.(*ast.UnaryExpr); ok && u.Op == token.AND {
 					lit = ast.Unparen(u.X)
 				}
+				if call, isCall := v.(*ast.CallExpr); isCall {
+					// a package-level channel is run-time state (a free list, a queue): make it anew
+					if id, ok := call.Fun.(*ast.Ident); ok && id.Name == "make" && len(call.Args) >= 1 {
+						if _, isChan := call.Args[0].(*ast.ChanType); isChan {
+							if str := r.exprString(v); str != "" {
+								fmt.Fprintf(&out, "\t%s = %s\n", name, str)
+							}
+						}
+					}
+					continue
+				}
 				cl, ok := lit.(*ast.CompositeLit)
 				if !ok || hasCallOutsideFuncLit(v) {
 					continue
@@ -424,16 +437,27 @@ func (r *rewriter) pre(c *astutil.Cursor) bool {
 	case *ast.SelectStmt:
 		nonDefault := 0
 		for _, cl := range n.Body.List {
+			if cl.(*ast.CommClause).Comm != nil {
+				nonDefault++
+			}
+		}
+		_, labelled := c.Parent().(*ast.LabeledStmt)
+		multi := nonDefault > 1 && !labelled
+		if nonDefault > 1 && labelled {
+			r.unseamed(n, "labelled select with more than one communication case (native random choice)")
+		}
+		for _, cl := range n.Body.List {
 			cc := cl.(*ast.CommClause)
 			if cc.Comm == nil {
 				continue
 			}
-			nonDefault++
 			r.markComm(cc.Comm)
-			cc.Body = append([]ast.Stmt{r.yieldStmt(r.sitePost(cc, "select"))}, cc.Body...)
+			if !multi {
+				cc.Body = append([]ast.Stmt{r.yieldStmt(r.sitePost(cc, "select"))}, cc.Body...)
+			}
 		}
-		if nonDefault > 1 {
-			r.unseamed(n, "select with more than one communication case (native random choice)")
+		if multi {
+			r.multiSel[n] = true
 		}
 		rep.Rewrites["select"]++
 	case *ast.AssignStmt:
@@ -459,6 +483,11 @@ func (r *rewriter) pre(c *astutil.Cursor) bool {
 func (r *rewriter) post(c *astutil.Cursor) bool {
 	switch n := c.Node().(type) {
 	case *ast.SelectStmt:
+		if r.multiSel[n] {
+			c.Replace(r.rewriteMultiSelect(n))
+			rep.Rewrites["select_multi"]++
+			return true
+		}
 		if c.Index() >= 0 {
 			c.InsertBefore(r.yieldStmt(r.site(n, "select")))
 		} else {
@@ -534,6 +563,73 @@ func (r *rewriter) post(c *astutil.Cursor) bool {
 		}
 	}
 	return true
+}
+
+// rewriteMultiSelect turns a select with two or more communication clauses into
+//
+//	{ c0 := ch0; c1 := ch1; s1 := val; i, v, ok := verifsim.Select(site, hasDefault, RecvOf(c0), SendOf(c1, s1))
+//	  switch i { case 0: x := verifsim.AsOf(c0, v); body0  case 1: body1  case -1: defaultBody } }
+//
+// so that the choice among ready cases is made by the simulation instead of the runtime's random pick.
+func (r *rewriter) rewriteMultiSelect(n *ast.SelectStmt) ast.Stmt {
+	idx, val, okv := ast.NewIdent(r.fresh("i")), ast.NewIdent(r.fresh("v")), ast.NewIdent(r.fresh("ok"))
+	var pre []ast.Stmt
+	var cases []ast.Expr
+	var clauses []ast.Stmt
+	hasDefault := "false"
+	k := 0
+	for _, cl := range n.Body.List {
+		cc := cl.(*ast.CommClause)
+		if cc.Comm == nil {
+			hasDefault = "true"
+			clauses = append(clauses, &ast.CaseClause{List: []ast.Expr{&ast.UnaryExpr{Op: token.SUB, X: &ast.BasicLit{Kind: token.INT, Value: "1"}}}, Body: cc.Body})
+			continue
+		}
+		chTmp := ast.NewIdent(r.fresh("c"))
+		var head []ast.Stmt
+		switch x := cc.Comm.(type) {
+		case *ast.SendStmt:
+			pre = append(pre, &ast.AssignStmt{Lhs: []ast.Expr{chTmp}, Tok: token.DEFINE, Rhs: []ast.Expr{x.Chan}})
+			var sv ast.Expr = x.Value
+			if tv, ok := r.info.Types[x.Value]; ok && !tv.IsNil() {
+				sTmp := ast.NewIdent(r.fresh("s"))
+				pre = append(pre, &ast.AssignStmt{Lhs: []ast.Expr{sTmp}, Tok: token.DEFINE, Rhs: []ast.Expr{x.Value}})
+				sv = sTmp
+			}
+			cases = append(cases, r.call("SendOf", chTmp, sv))
+		case *ast.ExprStmt:
+			u := ast.Unparen(x.X).(*ast.UnaryExpr)
+			pre = append(pre, &ast.AssignStmt{Lhs: []ast.Expr{chTmp}, Tok: token.DEFINE, Rhs: []ast.Expr{u.X}})
+			cases = append(cases, r.call("RecvOf", chTmp))
+		case *ast.AssignStmt:
+			u := ast.Unparen(x.Rhs[0]).(*ast.UnaryExpr)
+			pre = append(pre, &ast.AssignStmt{Lhs: []ast.Expr{chTmp}, Tok: token.DEFINE, Rhs: []ast.Expr{u.X}})
+			cases = append(cases, r.call("RecvOf", chTmp))
+			rhs := []ast.Expr{r.call("AsOf", chTmp, val)}
+			if len(x.Lhs) == 2 {
+				rhs = append(rhs, okv)
+			}
+			tok := x.Tok
+			allBlank := true
+			for _, l := range x.Lhs {
+				if !isBlank(l) {
+					allBlank = false
+				}
+			}
+			if allBlank {
+				tok = token.ASSIGN
+			}
+			head = append(head, &ast.AssignStmt{Lhs: x.Lhs, Tok: tok, Rhs: rhs})
+		}
+		clauses = append(clauses, &ast.CaseClause{List: []ast.Expr{&ast.BasicLit{Kind: token.INT, Value: strconv.Itoa(k)}}, Body: append(head, cc.Body...)})
+		k++
+	}
+	args := append([]ast.Expr{r.site(n, "select"), ast.NewIdent(hasDefault)}, cases...)
+	stmts := append(pre,
+		&ast.AssignStmt{Lhs: []ast.Expr{idx, val, okv}, Tok: token.DEFINE, Rhs: []ast.Expr{r.call("Select", args...)}},
+		&ast.AssignStmt{Lhs: []ast.Expr{ast.NewIdent("_"), ast.NewIdent("_")}, Tok: token.ASSIGN, Rhs: []ast.Expr{val, okv}},
+		&ast.SwitchStmt{Tag: idx, Body: &ast.BlockStmt{List: clauses}})
+	return &ast.BlockStmt{List: stmts}
 }
 
 // markComm marks the communication of a select clause as not to be rewritten.
